@@ -25,6 +25,7 @@
 typedef struct { long at; int k; int err; long failed_attempts; } entfault_t;
 static __thread entfault_t entfault = { -1, 0, 0, 0 };
 static void (*ent_fail_hook)(void);
+static __thread long ent_calls;                 /* getentropy() calls made by the library, failed attempts included */
 #define ENT_POISON 0xA5
 
 static void entfault_set(long at, int k, int err) { entfault.at = at; entfault.k = k; entfault.err = err; entfault.failed_attempts = 0; }
@@ -32,6 +33,7 @@ static void entfault_clear(void) { entfault.at = -1; entfault.k = 0; }
 
 int getentropy(void *buf, size_t len) {
 	int r;
+	ent_calls++;
 	if (!ent.passthrough && entfault.at >= 0 && ent.draws == entfault.at && entfault.k > 0) {
 		entfault.k--; entfault.failed_attempts++;
 		if (buf && len && len <= 256) memset(buf, ENT_POISON, len);
